@@ -115,6 +115,7 @@ class Recorder:
         self.identities = []         # (node id, id(protocol), id(provider)) at initialize
         self.own_pos = []
         self.time_types = []
+        self.row_uses = {}
         self._node = None
         self.commands = {}
         self.tick = float(scn.get("tick", TICK))
@@ -151,6 +152,10 @@ class Recorder:
             row = {"n": n, "cb": kind, "key": key, "t": t, "reqs": reqs}
             self.table[k] = row
         self._cb_kind = kind
+        # a reaction is a function of its trigger; when the same trigger occurs again it reacts as before - an
+        # escape (which cuts the reaction short) is therefore only taken at a trigger's first occurrence
+        self.row_uses[k] = self.row_uses.get(k, 0) + 1
+        self._first_use = self.row_uses[k] == 1
         start = len(self.trace)
         try:
             for spec in row["reqs"]:
@@ -191,7 +196,7 @@ class Recorder:
             drv = self.scn.get("drive", {})
             if self.scn.get("escapeAt") == len(self.exc_types) and \
                     (not self.scn.get("tolerant") or
-                     (getattr(self, "_cb_kind", None) in ("timer", "packet", "telemetry")
+                     (getattr(self, "_cb_kind", None) in ("timer", "packet", "telemetry") and getattr(self, "_first_use", False)
                       and drv.get("mode") == "steps" and not drv.get("untilDone"))):
                 # scenario flag escapeAt: this protocol does NOT catch its k-th refusal - the exception
                 # leaves the callback and aborts the run (only C06 uses it: an aborted run is aborted
@@ -207,6 +212,13 @@ class Recorder:
         if self.scn.get("intTime"):
             return int(ticks)
         return ticks / self.tick
+
+    def delay_value(self, ticks):
+        """the medium's delay; scenario flag floatZeroDelay: "no delay" written as the float 0.0 (also in the
+        integer regime, where nothing may be added to the clock that is not an int)"""
+        if ticks == 0 and self.scn.get("floatZeroDelay"):
+            return 0.0
+        return self.secs(ticks)
 
     def num(self, x):
         """scenario flag intArgs: integral quantities are handed over as Python ints (a protocol that
@@ -226,10 +238,17 @@ class Recorder:
         if self.scn.get("pollDone") and self.sim is not None:
             # the public, side-effect free status query, asked from inside callbacks as a UI would
             self.sim.is_simulation_done()
+        kw = bool(self.scn.get("keywordArgs"))
         if op == "setTimer":
-            p.schedule_timer(req[1], self.num(self.secs(req[2])))
+            if kw:      # the parameter names the IProvider interface publishes
+                p.schedule_timer(timer=req[1], timestamp=self.num(self.secs(req[2])))
+            else:
+                p.schedule_timer(req[1], self.num(self.secs(req[2])))
         elif op == "cancelTimer":
-            p.cancel_timer(req[1])
+            if kw:
+                p.cancel_timer(timer=req[1])
+            else:
+                p.cancel_timer(req[1])
         elif op == "send":
             p.send_communication_command(self.command(proto, "send", req[1], req[2]))
         elif op == "broadcast":
@@ -376,6 +395,12 @@ def _hooks_for(rec, label, sampler):
             rec.sample_positions()
         if rec.scn.get("pollDone") and rec.sim is not None:
             rec.sim.is_simulation_done()
+            # looking at public objects (a debugger, a log line) changes nothing
+            loop = getattr(self, "_event_loop", None)
+            if loop is not None:
+                repr(loop), str(loop), len(loop), loop.current_time
+            for i in range(rec.scn["cfg"]["nNodes"]):
+                repr(rec.sim.get_node(i))
         return super(holder["cls"], self).after_simulation_step(iteration, timestamp)
 
     def finalize(self):
@@ -420,10 +445,10 @@ def make_handler(rec, label, cfg, sampler):
             # are properties of the medium, read when a message is sent)
             medium = CommunicationMedium(transmission_range=bitsf(cfg["defaultRange"]))
             handler = cls(medium)
-            medium.delay = rec.secs(cfg["delay"])
+            medium.delay = rec.delay_value(cfg["delay"])
             medium.failure_rate = bitsf(cfg["failRate"])
             return handler
-        kw = dict(transmission_range=bitsf(cfg["defaultRange"]), delay=rec.secs(cfg["delay"]),
+        kw = dict(transmission_range=bitsf(cfg["defaultRange"]), delay=rec.delay_value(cfg["delay"]),
                   failure_rate=bitsf(cfg["failRate"]))
         if rec.scn.get("useDefaults"):
             # scenario flag useDefaults: what equals the DOCUMENTED default (range 60, no delay, no loss) is left
